@@ -61,15 +61,20 @@ reg("C05", "exploration",
     "boundary value sets in coverage.small_list_value_sets (distinct by enumeration), lists whose entry COUNT sits on varint-width / "
     "power-of-two boundaries (127...131 073), plus seeded random lists up to 10^4 "
     "(quick) / 10^5 (thorough) entries (distinct by fingerprint of the entry list + codec; non-trivial = >=2 entries); each "
-    "case runs encode-vs-spec, decode(own), decode(independent encoder) and, for a subset, the async twins",
-    require={"any": {"encode_matches_spec": 1000, "foreign_decode_ok": 1000, "async_twins": 50}},
+    "case runs encode-vs-spec, decode(own), decode(independent encoder) and, for a subset, the async twins; further classes: offsets "
+    "k*2^32 behind the previous entry's end (alias 'contiguous' under 32-bit arithmetic), very regular lists of 4 000...100 000 entries "
+    "that compress to a few dozen bytes, and lists whose UNCOMPRESSED encoding begins with the gzip / zstd / zlib magic bytes",
+    require={"any": {"encode_matches_spec": 1000, "foreign_decode_ok": 1000, "async_twins": 50,
+                     "lists_whose_plain_encoding_starts_with_a_codec_magic": 4, "regular_long_lists": 4}},
     phases=with_layers("miri"))
 
 reg("C07", "exploration",
     "cases = every tile id of zooms 0..L (L=10 quick, 15 thorough; distinct by enumeration: id -> zxy vs reference, "
     "tile_id(zxy) vs id, adjacency of consecutive ids, zoom-block order, children blocks), boundary/random points at every "
     "zoom 0-31, boundary/random u64 ids incl. ids beyond zoom 31, and coordinate lookups outside the grid for z=0..255 against "
-    "archives holding the aliased tile (distinct by fingerprint of (z,x,y) / id; non-trivial = out-of-grid or z>=1)",
+    "archives holding the aliased tile, the id the library itself computes, 0 and ids an implementation might use as an 'invalid' "
+    "sentinel (u64::MAX, u64::MAX-1, 2^63, i64::MAX, u32::MAX, first id of zoom 32) (distinct by fingerprint of (z,x,y) / id; "
+    "non-trivial = out-of-grid or z>=1)",
     require={"any": {"sweep_ids": 80000000, "adjacency_checked": 80000000, "lookup_out_of_grid_none": 1000,
                      "lookup_in_grid_ok": 100, "ids_rejected": 1000, "children_blocks_checked": 1000}},
     exhaustive_key=None)
@@ -97,7 +102,9 @@ def c08_phases(tier):
 reg("C08", "exploration",
     "cases = byte strings fed to Header/Directory/PMTiles readers (sync+async), then lookups, partial opens, read_directories and "
     "a re-write on whatever opened: (a) crafted corpus, >=1 archive per hazard class x 4 codecs (incl. cycle-free chains of 3...90 000 "
-    "DISTINCT nested directories, i.e. below and above any stack limit yet inside the visit budget); (b) every prefix and every "
+    "DISTINCT nested directories, i.e. below and above any stack limit yet inside the visit budget; declared tile lengths summing to "
+    "48 GiB / 3 TiB in a 64-byte data section; zstd frames whose header declares up to 2^64-2 content bytes; offsets aliasing other "
+    "sections); (b) every prefix and every "
     "single-byte boundary substitution {00,01,7f,80,ff,+1,-1} of small valid archives (exhaustive); (c) structure-aware "
     "mutations of valid archives in all codecs (header fields / raw varint columns / counts -> boundary values, pointer "
     "retargeting incl. cycles, stream corruption, wrong codec, stale headers, truncation), splices and bursts. Distinct by "
@@ -105,7 +112,8 @@ reg("C08", "exploration",
     "directory visits (lenient estimator mirroring the library's decoding) are outside the claim and only counted.",
     require={"any": {"open.ok": 500, "open.err": 5000, "rewrite.ok": 100, "lookup.ok": 1000, "inputs_with_pointer_cycle": 10,
                      "class.entry-count.inputs": 16, "class.self-pointer.inputs": 4, "class.pointer-chain.inputs": 20,
-                     "class.prefix.inputs": 500, "class.substitution.inputs": 3000, "open_async.returned": 1000}},
+                     "class.prefix.inputs": 500, "class.substitution.inputs": 3000, "open_async.returned": 1000,
+                     "class.declared-content-size.inputs": 10, "class.oversized-length.inputs": 12}},
     phases=c08_phases,
     assumptions=["worker address space limited to 12 GiB (a legitimately declared 4 GiB tile buffer is not an absurd allocation; "
                  "2^40 pre-allocated entries are)", "8 MiB stack", "'returns' is decided on logical stream operations "
@@ -127,14 +135,15 @@ reg("C15", "fault_enumeration",
 reg("C18", "exploration",
     "cases = (logical archive, start position P, pre-fill, writer): P in {0,1,10,127,128,4096,random<2^20}, pre-fill "
     "{empty, shorter than P, exactly P, slightly longer, longer than the archive} of sentinel bytes, archives empty/1/small/"
-    "medium/leaf-spilling, 4 codecs, sync and async (with Pending) writers; distinct by fingerprint of (archive,P,pre-fill,api); "
+    "medium/leaf-spilling and archives with more than 2^24 bytes of tile data, 4 codecs, sync and async (with Pending) writers; "
+    "distinct by fingerprint of (archive,P,pre-fill,api); "
     "non-trivial = P > 0. Oracle: sentinel bytes before P intact, stream[P..final position] validates with the independent reader "
     "and addresses exactly the logical content (offsets relative to P), final position = P + archive end.",
-    require={"any": {"validated_at_nonzero_p": 100, "with_leaf_spill": 4, "async_writes": 50}})
+    require={"any": {"validated_at_nonzero_p": 100, "with_leaf_spill": 4, "async_writes": 50, "archives_above_16_mib": 1}})
 
 reg("C11", "exploration",
     "cases = (archive, set of ranges): archives library-written (empty/1/small/medium/leaf-spilling) and foreign (directory depth "
-    "1-3, any layout), 4 codecs; per archive ~110 (quick) / ~260 (thorough) ranges covering all 3x3 bound kinds with endpoints "
+    "1-3 and deeper, tile entries and leaf pointers mixed in one directory, many small leaves, single-id ranges, any layout), 4 codecs; per archive ~110 (quick) / ~260 (thorough) ranges covering all 3x3 bound kinds with endpoints "
     "steered onto 0, 1, leaf first ids +-1, run starts/ends +-1, last id +-1, u64::MAX, the literal forms ..0 ..=0 0..0 .. , "
     "inverted and empty ranges and random ones; entry points from_bytes_partially (every range) and from_reader_partially / "
     "from_async_reader_partially / util::read_directories (rotating). Distinct by fingerprint of archive bytes; non-trivial = "
@@ -152,11 +161,17 @@ reg("C01", "exploration",
     "back-references, offsets exact multiples of the length apart), 65 535-131 073 tiles alternating between 2-3 short contents (more "
     "than 2^16 entries in ONE compressed root), large contents that differ from another one only in a middle / first / last byte; "
     "every third archive is built through detours (junk replaced later, identical bytes re-added while unique and while shared, extra "
-    "ids added and removed); written by the sync (4/5) or async (1/5) writer and opened with from_bytes. "
+    "ids added and removed), every seventh in two sessions (every other tile, a third of the rest temporarily bound to the left "
+    "neighbour's bytes, save + reopen, then the remaining tiles next to and over reader-backed ones); metadata of 70-400 KiB; tiles "
+    "above 1 MiB / 2^24 bytes; leaf-spilling archives with k*4096+r entries (r in {0,1,2,31,63,64,100,4095}); archives whose first "
+    "leaf directory is size-steered to exactly 127 bytes so that the second leaf lies at leaf-section offset 127 (= the root's "
+    "absolute offset); written by the sync (4/5) or async (1/5) writer and opened with from_bytes. "
     "Distinct by fingerprint of the logical archive; non-trivial = >=2 tiles and (duplicates or non-empty metadata). Oracle: the "
     "generator's own map + settings; every added tile fetched, ~100 absent ids probed per archive.",
     require={"any": {"round_trips_equal": 300, "archives_with_leaf_directories": 8, "coordinate_lookups_equal": 1000,
-                     "absent_ids_probed": 10000, "codec.none": 50, "codec.gzip": 50, "codec.brotli": 50, "codec.zstd": 50}},
+                     "absent_ids_probed": 10000, "codec.none": 50, "codec.gzip": 50, "codec.brotli": 50, "codec.zstd": 50,
+                     "archives_built_in_two_sessions": 20, "archives_built_through_detours": 50,
+                     "archives_with_leaf_at_section_offset_127": 1}},
     assumptions=["no two generated contents collide under the library's 64-bit content hash (a collision would be reported as a violation)"],
     phases=with_layers("asan"))
 
@@ -238,24 +253,34 @@ reg("C03", "exploration",
     "reference validator (else inconclusive); plus the repository's three upstream fixtures. Entry points rotate from_bytes / "
     "from_reader / from_async_reader; util::read_directories on every archive; Directory::find_entry_for_tile_id on every "
     "directory of every 4th archive (probes at run starts/ends +-1, gaps, leaf-pointer ids and ids k*2^32+d past an entry start); "
-    "a quarter of the archives store identical bytes at several offsets (valid, not deduplicated). Distinct by fingerprint of the archive bytes; non-trivial = >= 2 entries.",
+    "a quarter of the archives store identical bytes at several offsets (valid, not deduplicated); further layouts: entries addressing a "
+    "PREFIX of another entry's bytes, tile entries and leaf pointers mixed in one directory, a leaf at leaf-section offset 127 with the "
+    "root at absolute offset 127, gzip leaves of 32768*k+4 bytes stored back to back, and the most regular directory there is "
+    "(32...60 000 consecutive ids, equal lengths, contiguous offsets, one run at the very end; compression ratios far above 1000:1) with "
+    "find_entry probes inside the final run. Distinct by fingerprint of the archive bytes; non-trivial = >= 2 entries.",
     require={"any": {"archives_equal": 1000, "entry_maps_equal": 1000, "fixtures_equal": 3, "find_entry_probes": 2000,
                      "depth.3": 50, "depth.2": 50, "layouts_with_permuted_sections": 100, "layouts_with_gaps": 100,
-                     "layouts_with_empty_metadata": 50, "offset_style.2": 100}})
+                     "layouts_with_empty_metadata": 50, "offset_style.2": 100,
+                     "layouts_with_regular_dense_directory": 8, "layouts_with_mixed_directories": 50,
+                     "layouts_with_leaf_at_section_offset_127": 20, "layouts_with_prefix_sharing_entries": 50}})
 
 _C04_CELLS = {"transition.add.absent": 100, "transition.add.mem-unique": 100, "transition.add.mem-shared": 100,
               "transition.add.backed": 100, "transition.remove.absent": 100, "transition.remove.mem-unique": 100,
               "transition.remove.mem-shared": 100, "transition.remove.backed": 100, "transition.reopen-sync.n/a": 100,
               "transition.reopen-async.n/a": 100}
 reg("C04", "exploration",
-    "cases = edit histories over {add(id,bytes), remove(id), save+reopen sync, save+reopen async}: (a) EVERY sequence of length <= 5 "
-    "(quick) / <= 6 (thorough) over 11 symbols (ids 4,5,6 adjacent; contents A,B; A also held by the start archive) from two start "
+    "cases = edit histories over {add(id,bytes), add(id,EMPTY) (refused: state must stay), remove(id), save+reopen sync, save+reopen "
+    "async}: (a) EVERY sequence of length <= 5 (quick) / <= 6 (thorough) over 12 symbols (ids 4,5,6 adjacent; contents A,B; A also "
+    "held by the start archive; one empty add) from two start "
     "states {empty, opened foreign archive whose single run-length entry maps 5,6 -> A} (distinct by enumeration), (b) random "
     "histories of 200-2000 ops over up to 10^3 ids across zooms and a 50-content pool with a save+reopen every 50 ops alternating "
-    "sync/async and the 4 codecs (distinct by fingerprint). After EVERY op of (a) and every 25th of (b): lookups of the id universe by "
+    "sync/async and the 4 codecs, some starting with a bulk of 4 100-9 500 distinct tiles (leaf directories) or 65 537-70 000 tiles on "
+    "consecutive ids (more than 2^16 entries), textual contents handed over as String / &str / Vec<u8> (distinct by fingerprint). After EVERY op of (a) and every 25th of (b): lookups of the id universe by "
     "id and by coordinates, listing, count vs a BTreeMap model, plus the in-crate store report (feature verif). Evidence: "
     "transition matrix op x abstract pre-state {absent, mem-unique, mem-shared, backed}.",
-    require={"any": dict(_C04_CELLS, **{"full_state_comparisons": 50000, "exhaustive_histories": 20000})},
+    require={"any": dict(_C04_CELLS, **{"full_state_comparisons": 50000, "exhaustive_histories": 20000,
+                                        "histories_with_more_than_65536_entries": 2, "transition.add-empty.backed": 100,
+                                        "transition.add-empty.mem-unique": 100})},
     assumptions=["the store report hook (feature verif) only reads the three internal maps"])
 
 reg("C10", "exploration",
@@ -264,13 +289,15 @@ reg("C10", "exploration",
     "runs of 255...131 073 ids (integer-width boundaries of the run length), near duplicates sharing length/prefix}; plus archives "
     "from the independent writer that are valid but NOT deduplicated (identical bytes at several offsets), opened, optionally "
     "extended in memory, and re-written; histories {all in memory, half / save+reopen / half (duplicates between reader-backed and "
-    "in-memory tiles), save+reopen then re-add identical bytes, detours through junk that is replaced/removed}; sync and async "
+    "in-memory tiles; lower half first, UPPER half first, or alternating blocks of three ids, so that later adds sit in front of, behind and "
+    "between reader-backed runs; some lookups before the second half), save+reopen then re-add identical bytes, detours through junk that "
+    "is replaced/removed}; textual contents handed to add_tile as String / &str / Vec<u8> depending on the id; contents above 1 MiB; sync and async "
     "stores; 4 codecs. Distinct by fingerprint of (archive, history); non-trivial = the archive has duplicate contents. Oracle: "
     "written file parsed by the reference reader (data length = sum of distinct contents, identical content <=> identical offset, "
     "no mergeable neighbours, entry count = number of maximal runs, content counter) + store report of the builder at quiescent "
     "points (one retained copy per live content, none unreferenced).",
     require={"any": {"archives_minimal": 800, "archives_with_duplicates": 400, "archives_with_runs": 200, "history.0": 50,
-                     "history.1": 50, "history.2": 50, "history.3": 50, "foreign_rewrites_minimal": 150,
+                     "history.1": 50, "history.2": 50, "history.3": 50, "foreign_rewrites_minimal": 150, "archives_with_textual_contents": 50,
                      "foreign_sources_with_duplicate_contents": 100}},
     assumptions=["no two generated contents collide under the library's 64-bit content hash"])
 
@@ -279,20 +306,25 @@ reg("C06", "exploration",
     "stream started at position 0/127/1000: lists size-steered so that the None encoding has exactly 16256/16257/16258/16300/16383/"
     "16384/16385 bytes, codec lists bracketed around the first spilling prefix (+-2 entries), and random lists of 0..10^4 (quick) / "
     "10^5 (thorough) entries, and very regular lists of 16 257...200 000 entries that compress to a few hundred bytes (must NOT spill "
-    "under a codec); initial leaf sizes {default,1,2,7,33,4096,10^6}. Distinct by fingerprint of (list, codec, leaf size); "
+    "under a codec); lists whose every entry has a 6-byte offset varint and id deltas up to 2^40; the same clauses through whole-archive "
+    "writes at start positions {0,1,777,20 000}, half of them into a sink that accepts only part of most writes; initial leaf sizes "
+    "{default,1,2,7,33,4096,10^6}. Distinct by fingerprint of (list, codec, leaf size); "
     "non-trivial = >= 2 entries. Oracle: root = stream[start, position) <= 16257 bytes and decodes (exact consumption) as one "
     "directory; spill => only pointers, each [offset,offset+length) decodes as exactly one leaf whose first id is the pointer's id, "
     "concatenated leaves = input; no spill => root = input and = single-directory encoding; spill <=> single-directory encoding > 16257.",
     require={"any": {"writes_judged": 400, "spilled": 100, "fits_in_root": 100, "steered.16257": 1, "steered.16258": 1,
-                     "steered.16384": 1, "bracketed.gzip": 1, "bracketed.brotli": 1, "bracketed.zstd": 1, "async_writes": 100}})
+                     "steered.16384": 1, "bracketed.gzip": 1, "bracketed.brotli": 1, "bracketed.zstd": 1, "async_writes": 100,
+                     "whole_archive_spills_judged": 6}})
 
 reg("C17", "fault_enumeration",
-    "cases = (archive, writer, crash point k): archives empty/1/small/medium/leaf-spilling x 4 codecs x sync/async writer into a "
+    "cases = (archive, writer, crash point k): archives empty/1/small/medium/leaf-spilling, more than 2^24 bytes of tile data, uncompressed "
+    "tiles with long zero runs in and at the END of the tile data; the object written is built with add_tile, or OPENED from an existing "
+    "archive and written again unchanged, or opened, edited (metadata + one tile) and written; x 4 codecs x sync/async writer into a "
     "fresh recording stream; the N recorded stream operations (each write atomic) are replayed for EVERY k in [0,N] into a fresh "
     "image which is handed to PMTiles::from_bytes. Distinct by enumeration of (scenario,k); non-trivial = the image changed since "
     "k-1 (the k-th operation was a write). Oracle: Ok => image byte-identical to the complete archive.",
     require={"any": {"crash_points_opened": 1000, "torn_images_rejected": 800, "complete_images_accepted": 100,
-                     "scenarios_with_leaf_spill": 8, "async_scenarios": 50}},
+                     "scenarios_with_leaf_spill": 8, "async_scenarios": 50, "scenarios_rewriting_an_opened_archive": 16}},
     assumptions=["crash model: a prefix of the recorded write/seek operations took effect, each write call atomically; "
                  "torn individual writes are outside the property's quantifier"])
 
@@ -300,16 +332,20 @@ reg("C19", "exploration",
     "cases = offending element x position: a zero-length entry at every index of valid directories of 1-80 entries (sampled indices "
     "up to 2000 entries) x 4 codecs x serialiser/parser x sync/async; add_tile(id, []) on an existing and an absent id after every "
     "operation of random edit histories (incl. save+reopen) with full before/after comparison (lookups, listing, count, store report, "
-    "bytes of a later save vs an untouched twin); every non-object JSON kind as metadata x 4 codecs x sync/async open (archives from "
-    "the independent writer); Unknown internal compression on write (empty / non-empty, sync/async), on open (patched foreign "
-    "archives, and a header-only archive whose sections are all empty), and at directory level (also zero-length input). Each clause has a positive control. Distinct by fingerprint; all non-trivial.",
+    "bytes of a later save vs an untouched twin); length varints k*2^32 (length 0 once narrowed); every non-object JSON kind as metadata "
+    "(incl. strings that hold an object, long strings / arrays with multi-byte characters starting at byte offsets 1...255, long numbers) x 4 "
+    "codecs x sync/async open (archives from the independent writer); Unknown internal compression on write (empty / non-empty, "
+    "sync/async), on open (patched foreign archives with and without metadata, and a header-only archive whose sections are all empty; "
+    "full opens and range-filtered opens with ordinary, empty and inverted ranges), and at directory level (also zero-length input). Each clause has a positive control. Distinct by fingerprint; all non-trivial.",
     require={"any": {"serialiser_rejections": 1000, "parser_rejections": 1000, "parser_rejections_async": 1000, "empty_adds_refused": 1000,
                      "saves_equal_to_untouched_twin": 50, "non_object_metadata_refused": 200, "non_object_metadata_refused_async": 200,
-                     "unknown_compression_refused_on_write": 16, "unknown_compression_refused_on_open": 32}})
+                     "unknown_compression_refused_on_write": 16, "unknown_compression_refused_on_open": 32,
+                     "unknown_compression_refused_on_partial_open": 400}})
 
 reg("C20", "exploration",
     "cases = archives with non-overlapping sections: library-written (C01 classes) and foreign layouts (permuted sections, sentinel "
-    "gaps, tile data before directories/metadata, depth 1-3), 4 codecs, sync/async (with Pending) readers, full and range-filtered "
+    "gaps, tile data before directories/metadata, depth 1-3, mixed directories), one content under >= 2^17 ids, tiles above 2^24 bytes "
+    "with other tiles stored behind them, 4 codecs, sync/async (with Pending) readers, full and range-filtered "
     "opens; every tile id (<= 500 tiles) or 500 sampled ids looked up, plus one absent id. Distinct by fingerprint of the archive "
     "bytes; non-trivial = >= 2 tiles. Oracle: interval arithmetic over the recorded read operations (bytes actually returned) "
     "against the sections declared by the independently parsed header: open reads only header/metadata/root/leaf bytes; a lookup "
@@ -321,27 +357,30 @@ reg("C20", "exploration",
 reg("C12", "exploration",
     "cases = valid inputs of C01/C03/C05/C06/C09: logical archives (written by both writers; all four writer x reader combinations "
     "compared, None outputs byte-compared, async output judged by the independent reader), foreign and library-written archives "
-    "(sync vs async full and range-filtered opens incl. every tile's bytes; read_directories twins), entry lists x 4 codecs "
+    "(sync vs async full and range-filtered opens incl. every tile's bytes; read_directories twins; RE-WRITE twins: opened with either "
+    "reader kind and written with the matching writer, both outputs must hold the source's content and be byte-identical without a "
+    "codec), lock-step edit histories on a sync and an async archive, entry lists x 4 codecs "
     "(Directory twins both ways; write_directories twins resolved through the reference decoder, incl. lists size-steered to "
     "16255...16259 / 16384 bytes where both twins must take the same spill decision) and headers. Async code is driven "
     "by block_on over plain cursors and over the instrumented stream with short transfers and random Pending. Distinct by "
     "fingerprint of the input; non-trivial = >= 2 tiles/entries. Oracle: the synchronous twin.",
     require={"any": {"writer_reader_combinations_equal": 200, "none_outputs_byte_identical": 50, "async_outputs_validated": 200,
                      "full_opens_equal": 300, "partial_opens_equal": 300, "entry_maps_equal": 300, "directories_equal": 200,
-                     "write_directories_equal": 50, "headers_equal": 1000, "boundary_twins_equal": 6}},
+                     "write_directories_equal": 50, "headers_equal": 1000, "boundary_twins_equal": 6,
+                     "rewrite_twins_equal": 300, "rewrite_twins_byte_identical": 50}},
     phases=with_layers("asan"))
 
 reg("C13", "exploration",
     "cases = (input, schedule): EVERY composition of n bytes (n <= 16 quick / 22 thorough, 2^(n-1) schedules each) for None-encoded "
     "directories on read and on write, sync and async (with Pending bit patterns); codec directories under every fixed chunk size, "
     "every two-part split and random compositions; headers under every fixed chunk 1..127 and every two-part split; whole archives "
-    "(incl. leaf-spilling, 4 codecs) under fixed chunks {1,2,3,7,64,4096} and random schedules x {sync, async + Pending "
+    "(incl. leaf-spilling, 4 codecs; one with two contents above 2^24 bytes under chunks {4096, 65536, 2^20-1, random}) under fixed chunks {1,2,3,7,64,4096} and random schedules x {sync, async + Pending "
     "(alternate/random/never)} x {read, write}; every Pending pattern over the first 12 polls of an async open+dump and write. "
     "Transfers are >= 1 byte, seeks are not fragmented, Interrupted is not injected. Distinct by enumeration (compositions, patterns) "
     "or fingerprint; all non-trivial. Oracle: the unfragmented twin in the same process (values for readers, bytes for writers).",
     require={"any": {"compositions_executed": 30000, "dir_reads_equal": 30000, "dir_writes_equal": 30000, "codec_directory_schedules": 1000,
                      "header_schedules_equal": 900, "archive_reads_equal": 100, "archive_reads_equal_async": 100,
-                     "archive_writes_equal": 100, "archive_writes_equal_async": 100, "archives_with_leaves": 4,
+                     "archive_writes_equal": 100, "archive_writes_equal_async": 100, "archives_with_leaves": 4, "archives_above_16_mib": 1,
                      "pending_patterns_equal": 4096, "short_transfers": 100000, "pending_answers": 10000}},
     phases=with_layers("asan"))
 
@@ -383,16 +422,18 @@ def c14_phases(tier):
 
 reg("C14", "exploration",
     "cases = (byte string, codec, mode): payloads {empty, 1 byte, runs, text, incompressible, tiny, sizes around 4 KiB/32 KiB/64 KiB/"
-    "128 KiB boundaries, multi-megabyte repetitive and random, 4 MiB+1 / 8 MiB / 9 MiB+17 (16 MiB+3 thorough)} x {none, gzip, brotli, zstd} x {one-shot compress_all/decompress_all; "
+    "128 KiB boundaries, multi-megabyte repetitive and random, 4 MiB+1 / 8 MiB / 9 MiB+17 (16 MiB+3 thorough), 17 MiB+5 of zero bytes "
+    "(33 MiB+1 of a 4-byte pattern thorough; ratios far above 1000:1), payloads that are or start like compressed streams} x {none, gzip, brotli, zstd} x {one-shot compress_all/decompress_all; "
     "streams from the upstream encoders with foreign parameters/framing fed to decompress_all; streaming through compress/decompress "
     "(compress_async/decompress_async) with caller chunk schedules {1,2,3,7,64,4096,65536, random} over underlying streams that "
-    "fragment and answer Pending}; every composition of the write chunks for |x| <= 12; 'unknown' on all eight entry points. "
+    "fragment and answer Pending}; before every one-shot inverse check a truncated and a corrupted copy of the stream are fed to "
+    "decompress_all (a failed call must not influence the next one); every composition of the write chunks for |x| <= 12; 'unknown' on all eight entry points. "
     "Distinct by fingerprint of payload; non-trivial = >= 2 bytes. Oracle: identity + upstream decoders with exact stream "
     "consumption + Python gzip for a sample of gzip outputs.",
     require={"any": {"one_shot_inverse_ok": 400, "upstream_decodes_ok": 400, "foreign_streams_decoded": 400,
                      "streamed_writes_decode_upstream": 2000, "streamed_reads_equal": 2000, "async_streams": 800, "compositions": 1000,
                      "unknown_refused": 8, "python_gzip_files": 3, "payload.empty": 5, "payload.large": 5,
-                     "payload.multi_megabyte": 3}},
+                     "payload.multi_megabyte": 3, "payload.extreme_ratio": 1, "failed_calls_before_valid_one": 300}},
     phases=c14_phases)
 
 
@@ -432,11 +473,13 @@ reg("C16", "exploration",
     "sorted / reversed / shuffled (+ metadata assembled in another key order), detours (junk replaced later, extra ids added then "
     "removed, duplicate adds), save+reopen midway with a sync or async reopen (tiles partly reader-backed), a saved superset that is "
     "reopened and shrunk by removals only (nothing in memory at save time) or by a range-filtered open, by the sync and the async "
-    "writer; all outputs of one writer kind must be byte-identical (and sync == async where no codec is involved); the first three "
+    "writer, and a leaf-spilling superset shrunk by removals; archives with more than 2^17 distinct contents part of which recur later "
+    "under non-adjacent ids (built sorted, shuffled, and a second time); all outputs of one writer kind must be byte-identical (and sync == async where no codec is involved); the first three "
     "outputs are reopened and re-written (rewrite idempotence, covers stored coordinates); plus a cross-process phase in which 6 "
     "separate OS processes (different hash-map seeds) serialise the same archives and the driver compares fingerprints. Distinct by "
     "fingerprint of the logical archive; non-trivial = >= 2 tiles. Oracle: pairwise byte comparison (no golden files).",
     require={"any": {"logical_archives": 200, "history_pairs_byte_identical": 1500, "rewrites_identical": 600, "archives_with_leaves": 8,
-                     "xproc_processes": 6, "xproc_comparisons": 200, "codec.none": 30, "codec.gzip": 30, "codec.brotli": 30, "codec.zstd": 30}},
+                     "xproc_processes": 6, "xproc_comparisons": 200,
+                     "archives_with_more_than_131072_distinct_contents": 2, "codec.none": 30, "codec.gzip": 30, "codec.brotli": 30, "codec.zstd": 30}},
     phases=c16_phases,
     assumptions=["separate OS processes get different std HashMap seeds (RandomState); 6 processes are compared"])
